@@ -233,6 +233,27 @@ func (m *C03) cpProduct(w *chain.World, ctx sdk.Context, module string, id uint6
 			return
 		}
 	}
+	// The allowance is added to the reserves at the END of the phase, but a unit of rounding lost
+	// while the reserve was small weighs more: k units at a reserve of r are k/r of the product,
+	// i.e. k*(end/r) units at the end. Scale each asset's allowance by end / min(start, end)
+	// (a pool drained to 1 unit of an asset and refilled in the same phase cannot be judged at all:
+	// its allowance exceeds the reserve).
+	for i := range allow {
+		minr := b0[i]
+		if b1[i].Cmp(minr) < 0 {
+			minr = b1[i]
+		}
+		if minr.Sign() <= 0 {
+			return
+		}
+		if b1[i].Cmp(minr) > 0 {
+			num := new(big.Int).Mul(allow[i], b1[i])
+			allow[i] = num.Add(num, new(big.Int).Sub(minr, big.NewInt(1))).Div(num, minr)
+			if b1[i].Cmp(new(big.Int).Mul(minr, big.NewInt(2))) >= 0 {
+				m.st.Ev("cp_pool_reserve_more_than_doubled_in_phase")
+			}
+		}
+	}
 	m.st.Ev("cp_pool_batch")
 	if m.st.Eval(fmt.Sprintf("product/%d/%s", id, module), fmtDelta(d)) {
 		m.st.Sample(map[string]interface{}{"height": ctx.BlockHeight(), "phase": module + ".end", "pool": id, "constant_product": true, "pool_delta": fmtDelta(d), "reserves_before": fmt.Sprint(b0), "weights": fmt.Sprint(ws)})
